@@ -140,6 +140,9 @@ type genState struct {
 	seen    map[[2]int]int  // (s,t) -> generation of first write
 	flushed map[[2]int]bool // points that were in the memtable at some flush
 	pending map[[2]int]bool
+	rewrote bool            // the last batch rewrote stored points
+	noise   int             // out of 6: share of rows written at a random time instead of near the series' clock
+	lastGen map[[2]int]bool // points of the most recent flush (they live in the latest files)
 }
 
 func (g *genState) value(f int) int64 {
@@ -202,8 +205,10 @@ func (g *genState) batch() []tsdrv.Row {
 				rows = g.add(rows, s, g.r.Intn(g.now[s]+1))
 			}
 		}
-	case kind == 1 && !g.nodup && len(g.flushed) > 0:
-		// rewrite points that already live in files (a later file, an earlier file ...)
+	case (kind == 1 || kind == 3 || kind == 4) && !g.nodup && len(g.flushed) > 0:
+		// rewrite points that already live in files - any file: the first, a later one, one whose time range another
+		// series stretches beyond this series' own rows
+		g.rewrote = true
 		var keys [][2]int
 		for k := range g.flushed {
 			keys = append(keys, k)
@@ -211,8 +216,17 @@ func (g *genState) batch() []tsdrv.Row {
 		sort.Slice(keys, func(a, b int) bool {
 			return keys[a][0] < keys[b][0] || (keys[a][0] == keys[b][0] && keys[a][1] < keys[b][1])
 		})
-		for k := g.r.Range(1, 4); k > 0; k-- {
+		var recent [][2]int
+		for _, k := range keys {
+			if g.lastGen[k] {
+				recent = append(recent, k)
+			}
+		}
+		for k := g.r.Range(2, 8); k > 0; k-- {
 			key := gen.Pick(g.r, keys)
+			if len(recent) > 0 && g.r.Bool() {
+				key = gen.Pick(g.r, recent)
+			}
 			rows = g.add(rows, key[0], key[1])
 		}
 	case kind == 2:
@@ -231,13 +245,13 @@ func (g *genState) batch() []tsdrv.Row {
 		for i := 0; i < n; i++ {
 			s := g.r.Intn(g.nser)
 			var t int
-			switch g.r.Intn(6) {
-			case 0, 1, 2:
-				t = g.now[s] + g.r.Range(-3, 2)
-			case 3:
+			switch x := g.r.Intn(6); {
+			case x >= 6-g.noise:
+				t = g.r.Intn(NT)
+			case x == 0:
 				t = g.r.Intn(g.now[s] + 1)
 			default:
-				t = g.r.Intn(NT)
+				t = g.now[s] + g.r.Range(-3, 2)
 			}
 			rows = g.add(rows, s, t)
 		}
@@ -253,10 +267,63 @@ func (g *genState) batch() []tsdrv.Row {
 	return rows
 }
 
+// staggered: a layout family - 2-3 ordered files in which every series covers its own stretch of time (the file's time
+// range is wider than most of its chunks), then rewrites of stored points of any file, read from the memtable or from an
+// out-of-order file.
+func (g *genState) staggered() []Op {
+	var ops []Op
+	end := make([]int, g.nser)
+	for gen_ := g.r.Range(2, 3); gen_ > 0; gen_-- {
+		var rows []tsdrv.Row
+		for s := 0; s < g.nser; s++ {
+			from := end[s]
+			end[s] = from + g.r.Range(2, 9)
+			for t := from; t < end[s] && t < NT; t++ {
+				if g.r.Chance(4, 5) {
+					rows = g.add(rows, s, t)
+				}
+			}
+			if end[s] > NT-1 {
+				end[s] = NT - 1
+			}
+			g.now[s] = end[s]
+		}
+		if len(rows) > 0 {
+			ops = append(ops, Op{K: "W", Rows: rows}, Op{K: "F"})
+			g.flush()
+		}
+	}
+	var keys [][2]int
+	for k := range g.flushed {
+		keys = append(keys, k)
+	}
+	sort.Slice(keys, func(a, b int) bool {
+		return keys[a][0] < keys[b][0] || (keys[a][0] == keys[b][0] && keys[a][1] < keys[b][1])
+	})
+	if len(keys) == 0 {
+		return ops
+	}
+	var rows []tsdrv.Row
+	for k := g.r.Range(1, 5); k > 0; k-- {
+		key := gen.Pick(g.r, keys)
+		rows = g.add(rows, key[0], key[1])
+	}
+	ops = append(ops, Op{K: "W", Rows: rows})
+	if g.r.Chance(1, 3) {
+		ops = append(ops, Op{K: "F"})
+		g.flush()
+	}
+	return append(ops, Op{K: "Q"})
+}
+
 func (g *genState) flush() {
 	g.gen_++
+	if len(g.pending) > 0 {
+		g.lastGen = map[[2]int]bool{}
+	}
 	for k := range g.pending {
 		g.flushed[k] = true
+		g.lastGen[k] = true
 	}
 	g.pending = map[[2]int]bool{}
 }
@@ -275,18 +342,32 @@ func genHistory(r *gen.Rand) (int, bool, []Op) {
 	default:
 		nser = r.Range(8, 12) // many series per tag group / sub-cursor
 	}
-	g := &genState{r: r, nser: nser, nodup: r.Chance(3, 5), seen: map[[2]int]int{}, flushed: map[[2]int]bool{}, pending: map[[2]int]bool{}}
+	g := &genState{r: r, nser: nser, nodup: r.Chance(1, 2), seen: map[[2]int]int{}, flushed: map[[2]int]bool{}, pending: map[[2]int]bool{}, lastGen: map[[2]int]bool{}, noise: r.Intn(3)}
 	for s := 0; s < nser; s++ {
 		g.now = append(g.now, r.Range(1, 3))
 		g.speed = append(g.speed, r.Range(1, 4))
 	}
 	n := r.Range(6, 16)
+	if !g.nodup {
+		n = r.Range(10, 22) // rewrites need files to rewrite into
+	}
 	var ops []Op
+	if !g.nodup && r.Chance(2, 5) {
+		ops = g.staggered()
+	}
 	for len(ops) < n {
 		switch x := r.Intn(100); {
 		case x < 45:
+			g.rewrote = false
 			if b := g.batch(); len(b) > 0 {
 				ops = append(ops, Op{K: "W", Rows: b})
+				if g.rewrote && r.Chance(2, 3) { // read the rewritten points while they sit in the memtable, or in an out-of-order file
+					if r.Chance(1, 3) {
+						ops = append(ops, Op{K: "F"})
+						g.flush()
+					}
+					ops = append(ops, Op{K: "Q"})
+				}
 			}
 		case x < 62:
 			ops = append(ops, Op{K: "F"})
